@@ -11,6 +11,7 @@ import hashlib
 import os
 
 REPO = os.environ.get("RXVC_REPO", "/repo")
+VERIF = os.path.dirname(os.path.dirname(os.path.abspath(__file__)))
 
 DROPPED = [
     "docstrings",
@@ -80,13 +81,18 @@ class Module:
 class Loader:
     def __init__(self, repo: str | None = None):
         self.repo = repo or REPO
+        #: top-level package -> directory that contains it
+        self.roots = {"reactivex": self.repo, "specs": VERIF}
         self.modules: dict[str, Module] = {}
         self.files_read: dict[str, str] = {}
 
     # -- modules ---------------------------------------------------------
     def module_path(self, modname: str) -> str | None:
         parts = modname.split(".")
-        base = os.path.join(self.repo, *parts)
+        root = self.roots.get(parts[0])
+        if root is None:
+            return None
+        base = os.path.join(root, *parts)
         if os.path.isfile(base + ".py"):
             return base + ".py"
         if os.path.isfile(os.path.join(base, "__init__.py")):
@@ -94,7 +100,7 @@ class Loader:
         return None
 
     def is_repo_module(self, modname: str) -> bool:
-        return modname.split(".")[0] == "reactivex" and self.module_path(modname) is not None
+        return modname.split(".")[0] in self.roots and self.module_path(modname) is not None
 
     def load(self, modname: str) -> Module:
         if modname in self.modules:
@@ -107,7 +113,8 @@ class Loader:
         tree = ast.parse(src, filename=path)
         m = Module(modname, path, tree, src)
         self.modules[modname] = m
-        self.files_read[m.relpath] = hashlib.sha256(src.encode()).hexdigest()
+        if modname.split(".")[0] == "reactivex":
+            self.files_read[m.relpath] = hashlib.sha256(src.encode()).hexdigest()
         return m
 
     def load_file(self, relpath: str) -> Module:
